@@ -41,7 +41,64 @@ fn env_seed() -> u64 {
 
 const ALL_STRATA: &str = "crash,preempt,long,random";
 
+/// Commands that execute the code under test (through the fork server).
+const SIM_CMDS: [&str; 7] = ["child", "solo-slice", "mkreplay", "replay-inner", "solo", "forkbench", "hashes"];
+
+/// Before anything is allocated: (1) switch address-space randomisation off for this process
+/// image (re-exec once with ADDR_NO_RANDOMIZE), (2) start the fork server. Nothing here depends
+/// on the arguments beyond argv[1], and nothing touches the heap, so the memory image every
+/// execution is forked from is the same in the process that finds a violation and in the
+/// process that replays it.
+fn early_init() {
+    unsafe {
+        let mut buf = [0u8; 16384];
+        let fd = libc::open(b"/proc/self/cmdline\0".as_ptr() as *const libc::c_char, libc::O_RDONLY);
+        if fd < 0 {
+            return;
+        }
+        let mut n = 0usize;
+        loop {
+            let r = libc::read(fd, buf.as_mut_ptr().add(n) as *mut libc::c_void, buf.len() - 1 - n);
+            if r <= 0 {
+                break;
+            }
+            n += r as usize;
+        }
+        libc::close(fd);
+        // argv as NUL-separated strings
+        let mut ptrs: [*const libc::c_char; 66] = [std::ptr::null(); 66];
+        let mut argc = 0usize;
+        let mut start = 0usize;
+        for i in 0..n {
+            if buf[i] == 0 {
+                if argc < 64 {
+                    ptrs[argc] = buf.as_ptr().add(start) as *const libc::c_char;
+                    argc += 1;
+                }
+                start = i + 1;
+            }
+        }
+        if argc < 2 || argc >= 64 {
+            return;
+        }
+        let cmd = std::ffi::CStr::from_ptr(ptrs[1]).to_bytes();
+        if !SIM_CMDS.iter().any(|c| c.as_bytes() == cmd) {
+            return;
+        }
+        const ADDR_NO_RANDOMIZE: libc::c_ulong = 0x0040000;
+        let cur = libc::personality(0xffff_ffff);
+        if cur >= 0 && (cur as libc::c_ulong & ADDR_NO_RANDOMIZE) == 0 {
+            if libc::personality(cur as libc::c_ulong | ADDR_NO_RANDOMIZE) >= 0 {
+                libc::execv(b"/proc/self/exe\0".as_ptr() as *const libc::c_char, ptrs.as_ptr());
+                // exec failed: carry on with randomisation (replays of address-dependent code may then not be exact)
+            }
+        }
+    }
+    init_sim();
+}
+
 fn main() {
+    early_init();
     let args: Vec<String> = std::env::args().collect();
     let cmd = args.get(1).map(|s| s.as_str()).unwrap_or("");
     let verif_dir = arg(&args, "--verif").unwrap_or_else(|| "/verif".to_string());
@@ -67,7 +124,6 @@ fn main() {
             })
         }
         "child" => {
-            init_sim();
             child::child_main(child::ChildArgs {
                 seed: arg(&args, "--seed").and_then(|s| s.parse().ok()).unwrap_or(1),
                 thorough: arg(&args, "--tier").as_deref() == Some("thorough"),
@@ -85,7 +141,6 @@ fn main() {
             })
         }
         "solo-slice" => {
-            init_sim();
             child::slice_main(
                 &arg(&args, "--workload").unwrap_or_else(|| format!("{verif_dir}/workload")),
                 arg(&args, "--seed").and_then(|s| s.parse().ok()).unwrap_or(1),
@@ -96,11 +151,9 @@ fn main() {
             )
         }
         "mkreplay" => {
-            init_sim();
             mkreplay(&args, &verif_dir)
         }
         "replay-inner" => {
-            init_sim();
             replay_inner(args.get(2).expect("replay file"))
         }
         "replay" => {
@@ -123,7 +176,6 @@ fn main() {
             }
         }
         "solo" => {
-            init_sim();
             let path = args.get(2).expect("file");
             let opts = args.get(3).cloned().unwrap_or_else(|| "{}".into());
             let src = std::fs::read_to_string(path).expect("read");
@@ -143,7 +195,6 @@ fn main() {
             0
         }
         "forkbench" => {
-            init_sim();
             let ld = if flag(&args, "--small") { None } else { Some(child::load(&format!("{verif_dir}/workload"), 1, false, Duration::from_secs(60))) };
             let n = 2000;
             let t0 = std::time::Instant::now();
@@ -162,7 +213,6 @@ fn main() {
         }
         "hashes" => {
             // event-log fingerprints of a slice of a stratum (used to prove the simulator deterministic)
-            init_sim();
             let seed = arg(&args, "--seed").and_then(|s| s.parse().ok()).unwrap_or(1);
             let index: u64 = arg(&args, "--index").and_then(|s| s.parse().ok()).unwrap_or(0);
             let of: u64 = arg(&args, "--of").and_then(|s| s.parse().ok()).unwrap_or(1);
@@ -213,6 +263,8 @@ fn mkreplay(args: &[String], verif_dir: &str) -> i32 {
         max_restarts: 0,
         key_seed: seed,
         sched_seed: 0,
+            opts_per_task: false,
+            stack_kib: vec![],
         tasks: vec![t],
     };
     let rf = match stratum.as_str() {
